@@ -70,7 +70,15 @@ impl Timestamp {
     /// Returns an error if the string is invalid
     pub fn parse(format: TimestampFormat, s: &str) -> Result<Self, ParseTimestampError> {
         let ans = match format {
-            TimestampFormat::DateTime => time::OffsetDateTime::parse(s, &Rfc3339)?,
+            TimestampFormat::DateTime => {
+                let ans = time::OffsetDateTime::parse(s, &Rfc3339)?;
+                // The offset must not move the instant out of the years 0000..=9999:
+                // the text formats are written in UTC and have no other years.
+                match ans.checked_to_offset(time::UtcOffset::UTC) {
+                    Some(utc) if (0..=9999).contains(&utc.year()) => ans,
+                    _ => return Err(ParseTimestampError::Overflow),
+                }
+            }
             TimestampFormat::HttpDate => time::PrimitiveDateTime::parse(s, RFC1123)?.assume_utc(),
             TimestampFormat::EpochSeconds => {
                 // an instant before 1970 is written with a leading minus sign
@@ -167,6 +175,35 @@ mod tests {
             let text = String::from_utf8(buf).unwrap();
 
             assert_eq!(expected, text);
+        }
+    }
+
+    #[test]
+    fn date_time_offset_at_year_limits() {
+        let fmt = TimestampFormat::DateTime;
+
+        // a parsed timestamp can always be written
+        let cases = [
+            ("9999-12-31T23:59:59+01:00", "9999-12-31T22:59:59.000Z"),
+            ("9999-12-31T22:59:59-01:00", "9999-12-31T23:59:59.000Z"),
+            ("0000-01-01T01:00:00+01:00", "0000-01-01T00:00:00.000Z"),
+            ("0000-01-01T00:00:00-23:59", "0000-01-01T23:59:00.000Z"),
+        ];
+        for (input, expected) in cases {
+            let time = Timestamp::parse(fmt, input).unwrap();
+            let mut buf = Vec::new();
+            time.format(fmt, &mut buf).unwrap();
+            assert_eq!(expected, String::from_utf8(buf).unwrap());
+        }
+
+        // the instant is outside the years 0000..=9999
+        for input in [
+            "9999-12-31T23:59:59-01:00",
+            "9999-12-31T23:00:00-01:00",
+            "0000-01-01T00:00:00+01:00",
+            "0000-01-01T00:59:59+01:00",
+        ] {
+            assert!(Timestamp::parse(fmt, input).is_err(), "{input}");
         }
     }
 }
